@@ -149,7 +149,12 @@ func expect(mm *gostatsd.MetricMap, d gostatsd.TimerSubtypes, o expectOpts) expe
 		}
 		h = append(h, sum)
 		if len(tm.Values) > 0 {
-			h = append(h, tm.Values[0], tm.Values[len(tm.Values)-1])
+			// the aggregator does not sort the values of a gsd_histogram timer
+			lo, hi := tm.Values[0], tm.Values[0]
+			for _, v := range tm.Values {
+				lo, hi = math.Min(lo, v), math.Max(hi, v)
+			}
+			h = append(h, lo, hi)
 		}
 		if tm.Histogram != nil {
 			for _, c := range tm.Histogram {
@@ -243,8 +248,13 @@ func datapointGen() *rapid.Generator[*gostatsd.Metric] {
 			m.Value = float64(rapid.IntRange(-100000, 1000000).Draw(t, "v")) / float64(rapid.SampledFrom([]int{1, 10, 1000, 1000000}).Draw(t, "div"))
 			if m.Type == gostatsd.TIMER {
 				m.Rate = rapid.SampledFrom([]float64{1, 0.5}).Draw(t, "rate")
-				if rapid.IntRange(0, 3).Draw(t, "hist") == 0 {
+				switch rapid.IntRange(0, 7).Draw(t, "hist") {
+				case 0, 1:
 					m.Tags = append(m.Tags, "gsd_histogram:1_5_10.5")
+				case 2:
+					// several values on one histogram series, in arrival (unsorted) order
+					m.Tags = gostatsd.Tags{"gsd_histogram:1_5_10.5"}
+					m.Source = gostatsd.Source(hosts[0])
 				}
 			}
 		}
